@@ -10,26 +10,26 @@ import (
 
 // The environment of DESIGN §5: tables that follow the regulator's instructions.
 type rgRunner struct {
-	o        *Out
-	r        regulator.Regulator
-	max, min int
-	status   string
-	members  map[int][]int // table id -> player ids at the table
-	alive    map[int]bool  // registered and not eliminated
-	nextTbl  int
-	nextPid  int
-	calls    []string // callbacks of the current operation
-	choices  []string // table ids picked by getAvailableTable during the current operation
-	handed   []int    // ids handed out (callbacks / SyncState result) during the current operation
-	preQueue []int
-	dead     bool
-	started  bool
-	everMin  bool
-	initial  bool // the operation at hand started with no table open
+	o          *Out
+	r          regulator.Regulator
+	max, min   int
+	status     string
+	members    map[int][]int // table id -> player ids at the table
+	alive      map[int]bool  // registered and not eliminated
+	nextTbl    int
+	nextPid    int
+	calls      []string // callbacks of the current operation
+	choices    []string // table ids picked by getAvailableTable during the current operation
+	handed     []int    // ids handed out (callbacks / SyncState result) during the current operation
+	preQueue   []int
+	dead       bool
+	started    bool
+	everMin    bool
+	initial    bool // the operation at hand started with no table open
 	registered int
-	forceElim []int // replay: the members to eliminate in the next sync (nil = choose at random)
-	forceRel  []int // replay: the members to release after the next sync (nil = choose at random)
-	forced    bool
+	forceElim  []int // replay: the members to eliminate in the next sync (nil = choose at random)
+	forceRel   []int // replay: the members to release after the next sync (nil = choose at random)
+	forced     bool
 }
 
 func pidStr(ids []int) string {
